@@ -51,7 +51,7 @@ type c01cluster struct {
 	inflight                                    atomic.Int64
 }
 
-var c01HTTPEps = []string{"h1", "h10", "h1-x", "H1"}
+var c01HTTPEps = []string{"h1", "h10", "h1-x", "H1", "h1.v2"}
 var c01TCPEps = []string{"t1", "t10"}
 
 func isTCPEp(ep string) bool { return strings.HasPrefix(ep, "t") }
@@ -209,6 +209,10 @@ func stampNode(st string) string {
 func modesFor(ep string) []string {
 	if isTCPEp(ep) {
 		return []string{"tcp"}
+	}
+	if strings.Contains(ep, ".") {
+		// an id with a dot cannot be named by a Host label (the label ends at the dot)
+		return []string{"header", "conflict", "conflict-listed"}
 	}
 	return []string{"host", "header", "conflict", "conflict-listed"}
 }
@@ -473,7 +477,7 @@ func runC01(sh *core.Shard, a props.Args) {
 func init() {
 	props.Register(&props.Prop{
 		ID: "C01", Level: "exploration", Race: true, Parallel: 8,
-		Rule: "clusters of 1-4 real in-process nodes joined by gossip; 6 endpoints with near-miss ids (h1, h10, h1-x, H1 served over HTTP; t1, t10 over the TCP route) each with 0-3 upstreams on seeded nodes; every upstream stamps its responses/streams with (endpoint, upstream id, node) and echoes a request nonce. Phase 1: 4 request goroutines address random (entry node, endpoint, mode in {first Host label, x-piko-endpoint, conflicting Host+header, /_piko/v1/tcp}) while a churn goroutine connects, go-aways and disconnects upstreams; every outcome must be {stamp.endpoint == addressed endpoint with the right nonce} or {502, 504}. Phase 2: churn stops, 'settled' is decided logically (every node's registry equals the harness's open connections and every node's routing table mirrors every other node's own state; 30 s watchdog => inconclusive) and every (entry node, endpoint, mode) is probed: 200 with a stamp of that endpoint iff some upstream exists anywhere, else 502. Non-trivial cluster = saw locally served and forwarded responses and churn events overlapping in-flight requests; distinct = hash of (size, outcome counts, final placement).",
+		Rule: "clusters of 1-4 real in-process nodes joined by gossip; 7 endpoints with near-miss ids (h1, h10, h1-x, H1 and the dotted h1.v2 served over HTTP; t1, t10 over the TCP route) each with 0-3 upstreams on seeded nodes; every upstream stamps its responses/streams with (endpoint, upstream id, node) and echoes a request nonce. Phase 1: 4 request goroutines address random (entry node, endpoint, mode in {first Host label, x-piko-endpoint, conflicting Host+header, the same with the header also listed in Connection, /_piko/v1/tcp}) while a churn goroutine connects, go-aways and disconnects upstreams; every outcome must be {stamp.endpoint == addressed endpoint with the right nonce} or {502, 504}. Phase 2: churn stops, 'settled' is decided logically (every node's registry equals the harness's open connections and every node's routing table mirrors every other node's own state; 30 s watchdog => inconclusive) and every (entry node, endpoint, mode) is probed: 200 with a stamp of that endpoint iff some upstream exists anywhere, else 502. Non-trivial cluster = saw locally served and forwarded responses and churn events overlapping in-flight requests; distinct = hash of (size, outcome counts, final placement).",
 		Assumptions: []string{
 			"listeners are created both with a background context and, like the agent, with a connect-timeout context cancelled after connecting",
 			"interleavings of churn and requests are sampled by repetition, not enumerated",
